@@ -274,3 +274,54 @@ def borrow(ctx: Ctx, res: Result, tier: str, module_name: str, rules, as_rule: s
     for f_ in sub.findings:
         if f_.rule in rules:
             res.fail(Finding(as_rule, f_.func, f_.construct, f_.loc, "[%s] %s" % (f_.rule, f_.msg), f_.path))
+
+
+def _toks(name: str):
+    return {x for x in name.lower().strip("_").split("_") if x and x not in ("str", "is", "the")}
+
+
+def dataclass_rule(ctx: Ctx, res: Result, rid: str, class_qnames):
+    """Plain data carriers (what the collector fills and the wire converter reads): every read-only property hands out
+    the field of the same meaning, and the constructor stores each parameter under the field of the same meaning.
+    Names are compared as sets of `_`-separated words (ts_nanos ~ _ts_nanos, is_async ~ _async, id ~ tp_id)."""
+    p, t = ctx.prog, ctx.types
+    n_get = n_store = 0
+    for qn in class_qnames:
+        c = p.cls(qn)
+        init = c.lookup("__init__")
+        for name, lst in sorted(c.methods.items()):
+            for g_ in lst:
+                if not g_.is_property or g_.is_abstract or g_.is_setter:
+                    continue
+                n_get += 1
+                rets = [r for r in t.nodes_in(g_, ast.Return) if r.value is not None]
+                fields = []
+                for r in rets:
+                    for n in ast.walk(r.value):
+                        if isinstance(n, ast.Attribute) and isinstance(n.value, ast.Name) and n.value.id == (g_.params[0] if g_.params else "self"):
+                            fields.append(n.attr)
+                if not fields:
+                    res.fail(Finding(rid, g_.qname, rets[0] if rets else "<return>", g_.loc(), "the property %s.%s does not hand out any stored field (returns %s): every reader, "
+                                     "including the wire conversion, gets a constant" % (c.name, name, [norm(r.value) for r in rets] or "nothing")))
+                    continue
+                bad = [f for f in fields if not (_toks(f.split("__")[-1] if f.startswith("_" + c.name) else f) & _toks(name))
+                       and not c.lookup(f)]
+                if bad:
+                    res.fail(Finding(rid, g_.qname, rets[0], g_.loc(rets[0]), "the property %s.%s hands out the field `%s`" % (c.name, name, bad[0])))
+                else:
+                    res.ok(rid, {"%s.%s" % (c.name, name): sorted(set(fields))})
+        if init is None:
+            continue
+        for (cq, attr), lst_ in sorted(t._attr_store_index().items()):
+            if cq != c.qname:
+                continue
+            for sf, v, _ in lst_:
+                if sf is not init or not isinstance(v, ast.Name) or v.id not in init.params:
+                    continue
+                n_store += 1
+                fld = attr.split("__")[-1] if attr.startswith("_" + c.name) else attr
+                if _toks(fld) & _toks(v.id):
+                    res.ok(rid)
+                else:
+                    res.fail(Finding(rid, init.qname, ctx.prog.parent_of(v) if False else v, init.loc(v), "%s.%s is stored from the constructor parameter `%s`" % (c.name, attr, v.id)))
+    res.analysed["data-carrier getters / constructor stores checked"] = "%d / %d" % (n_get, n_store)
